@@ -20,6 +20,10 @@ const (
 
 // bufDerives: v (possibly a byte buffer filled through copy/PutUintXX/append)
 // derives from a value satisfying pred.
+// bufParamArgs: the arguments bound to a parameter at all static call sites of its
+// function (nil when some call site is not static). Set by runC19.
+var bufParamArgs func(p *ssa.Parameter) []ssa.Value
+
 func bufDerives(v ssa.Value, pred func(ssa.Value) bool, depth int, seen map[ssa.Value]bool) bool {
 	if v == nil || depth > 30 || seen[v] {
 		return false
@@ -29,6 +33,20 @@ func bufDerives(v ssa.Value, pred func(ssa.Value) bool, depth int, seen map[ssa.
 		return true
 	}
 	switch x := v.(type) {
+	case *ssa.Parameter:
+		// a parameter of a helper split off the writer: the bound argument at every call site
+		if bufParamArgs != nil {
+			args := bufParamArgs(x)
+			all := len(args) > 0
+			for _, a := range args {
+				if !bufDerives(a, pred, depth+1, seen) {
+					all = false
+				}
+			}
+			if all {
+				return true
+			}
+		}
 	case *ssa.MakeSlice, *ssa.Alloc:
 		// writers into the buffer: calls receiving (a slice of) it
 		if bufWriters(v, pred, depth, seen) {
@@ -158,59 +176,96 @@ func runC19(cx *Ctx, r *Report) {
 			pa, ok := v.(*ssa.Parameter)
 			return ok && typeIs(pa.Type(), modPrefix+"modules/record/types", "Record")
 		}
+		bufParamArgs = func(pa *ssa.Parameter) []ssa.Value {
+			fn := pa.Parent()
+			idx := -1
+			for i, q := range fn.Params {
+				if q == pa {
+					idx = i
+				}
+			}
+			var out []ssa.Value
+			for _, cs := range cx.CallersOf(fn) {
+				cc := cs.Site.Common()
+				if cc.IsInvoke() || cc.StaticCallee() != fn || idx < 0 || idx >= len(cc.Args) {
+					return nil
+				}
+				out = append(out, cc.Args[idx])
+			}
+			return out
+		}
+		defer func() { bufParamArgs = nil }()
 		okCtr := bufDerives(key, isCounterRead, 0, map[ssa.Value]bool{})
 		okRec := bufDerives(key, isRecordParam, 0, map[ssa.Value]bool{})
 		r.check(okCtr, "key-from-counter", "0x01", cx.P.Pos(p.Site.Pos()), "the record key derives from the value read under counter key 0x02", "the record key does not depend on the counter stored under 0x02: two identical records in one transaction would overwrite each other")
 		r.check(okRec, "key-from-record", "0x01", cx.P.Pos(p.Site.Pos()), "the record key derives from the record contents", "the record key does not depend on the record contents")
-		// counter+1 written after the Set on every path
-		var ctrSites []ssa.Instruction
-		for _, b := range f.Blocks {
-			for _, ins := range b.Instrs {
-				c, ok := ins.(*ssa.Call)
-				if !ok {
-					continue
-				}
-				writes := false
-				if cx.classifyCall(c) == "store.set" {
-					for _, px := range cx.storeKeyPrefix(c, "store.set") {
-						if px == recCtr {
-							writes = true
-						}
-					}
-				}
-				for _, e := range cx.calleesOf(c) {
-					if e.Callee.Blocks == nil {
+		// counter+1 written after the Set on every path: in the function holding the Set,
+		// or - when the Set sits in a helper - after the helper call in each of its callers
+		var advAt func(f *ssa.Function, site ssa.Instruction, depth int) bool
+		advAt = func(f *ssa.Function, site ssa.Instruction, depth int) bool {
+			var ctrSites []ssa.Instruction
+			for _, b := range f.Blocks {
+				for _, ins := range b.Instrs {
+					c, ok := ins.(*ssa.Call)
+					if !ok {
 						continue
 					}
-					for _, pp := range cx.primsOf(e.Callee) {
-						if pp.Kind == "store.set" && len(pp.Prefix) == 1 && pp.Prefix[0] == recCtr {
-							writes = true
+					writes := false
+					if cx.classifyCall(c) == "store.set" {
+						for _, px := range cx.storeKeyPrefix(c, "store.set") {
+							if px == recCtr {
+								writes = true
+							}
 						}
 					}
-				}
-				if !writes {
-					continue
-				}
-				// argument is counter+1
-				inc := false
-				for _, a := range c.Common().Args {
-					if bo, ok := a.(*ssa.BinOp); ok && bo.Op.String() == "+" {
-						if cst, ok := bo.Y.(*ssa.Const); ok && cst.Int64() == 1 && isCounterRead(bo.X) {
-							inc = true
+					for _, e := range cx.calleesOf(c) {
+						if e.Callee.Blocks == nil {
+							continue
+						}
+						for _, pp := range cx.primsOf(e.Callee) {
+							if pp.Kind == "store.set" && len(pp.Prefix) == 1 && pp.Prefix[0] == recCtr {
+								writes = true
+							}
 						}
 					}
-				}
-				if inc {
-					ctrSites = append(ctrSites, ins)
+					if !writes {
+						continue
+					}
+					// argument is counter+1
+					inc := false
+					for _, a := range c.Common().Args {
+						if bo, ok := a.(*ssa.BinOp); ok && bo.Op.String() == "+" {
+							if cst, ok := bo.Y.(*ssa.Const); ok && cst.Int64() == 1 && isCounterRead(bo.X) {
+								inc = true
+							}
+						}
+					}
+					if inc {
+						ctrSites = append(ctrSites, ins)
+					}
 				}
 			}
-		}
-		okAdv := false
-		for _, s := range ctrSites {
-			if mutualMust(p.Site, s) && (p.Site.Block() != s.Block() && p.Site.Block().Dominates(s.Block()) || p.Site.Block() == s.Block() && instrIndex(p.Site) < instrIndex(s)) {
-				okAdv = true
+			for _, s := range ctrSites {
+				if mutualMust(site, s) && (site.Block() != s.Block() && site.Block().Dominates(s.Block()) || site.Block() == s.Block() && instrIndex(site) < instrIndex(s)) {
+					return true
+				}
 			}
+			if depth >= 3 || !mustPass(f, func(x ssa.Instruction) bool { return x == site }) {
+				return false
+			}
+			callers := cx.CallersOf(f)
+			if len(callers) == 0 {
+				return false
+			}
+			for _, cs := range callers {
+				ci, isInstr := cs.Site.(ssa.Instruction)
+				if !isInstr || cs.Site.Common().StaticCallee() != f || !advAt(cs.Caller, ci, depth+1) {
+					return false
+				}
+			}
+			return true
 		}
+		okAdv := advAt(f, p.Site, 0)
 		r.check(okAdv, "counter-advances", "0x02", cx.P.Pos(p.Site.Pos()), "counter+1 is written to 0x02 on every path after the record Set", "no must-executed write of counter+1 to 0x02 after the record Set in "+shortFn(f))
 		// returned id is the id the key was built from
 		okRet := false
